@@ -698,6 +698,11 @@ static int32 tls13WriteServerHello(ssl_t *ssl, sslBuf_t *out,
         return rc;
     }
     extData = psDynBufDetachPsSize(&extBuf, &extDataLen);
+    if (extData == NULL)
+    {
+        psDynBufUninit(&shBuf);
+        return PS_MEM_FAIL;
+    }
 
     /* Extension extensions<6..2^16-1> */
     psDynBufAppendTlsVector(&shBuf,
@@ -711,6 +716,10 @@ static int32 tls13WriteServerHello(ssl_t *ssl, sslBuf_t *out,
 
     psDynBufUninit(&extBuf);
     psDynBufUninit(&shBuf);
+    if (shData == NULL)
+    {
+        return PS_MEM_FAIL;
+    }
 
     /* Wrap into Handshake and TLSPlaintext. */
     rc = makeHsRecord(ssl,
@@ -815,6 +824,10 @@ static int32_t tls13WriteEncryptedExtensions(ssl_t *ssl, sslBuf_t *out)
     }
 
     extensionData = psDynBufDetachPsSize(&eeBuf, &extensionDataLen);
+    if (extensionData == NULL)
+    {
+        return PS_MEM_FAIL;
+    }
     psDynBufInit(ssl->hsPool, &eeBuf, ENCRYPTED_EXTENSIONS_SIZE_EST);
     /* Extension extensions<0..2^16-1>; */
     psDynBufAppendTlsVector(&eeBuf,
@@ -823,6 +836,10 @@ static int32_t tls13WriteEncryptedExtensions(ssl_t *ssl, sslBuf_t *out)
             extensionDataLen);
     psFree(extensionData, ssl->hsPool);
     eeData = psDynBufDetachPsSize(&eeBuf, &eeLen);
+    if (eeData == NULL)
+    {
+        return PS_MEM_FAIL;
+    }
 
     /* Wrap into Handshake, TLSPlaintext, TLSInnerPlaintext and
        TLSCiphertext. But don't encrypt yet. */
@@ -1491,6 +1508,11 @@ int32_t tls13WriteNewSessionTicket(ssl_t *ssl, sslBuf_t *out)
             return rc;
         }
         extData = psDynBufDetachPsSize(&extBuf, &extDataLen);
+        if (extData == NULL)
+        {
+            psDynBufUninit(&nstBuf);
+            goto out_internal_error;
+        }
     }
     psDynBufAppendTlsVector(&nstBuf,
             0, (1 << 16) - 1,
@@ -2503,6 +2525,11 @@ int32 tls13WriteClientHello(ssl_t *ssl, sslBuf_t *out,
                 ssl->tls13ClientCipherSuitesLen,
                 PS_FALSE);
         data = psDynBufDetachPsSize(&ciphersBuf, &dataLen);
+        if (data == NULL)
+        {
+            psDynBufUninit(&chBuf);
+            return PS_MEM_FAIL;
+        }
         /* CipherSuite cipher_suites<2..2^16-2>; */
         psDynBufAppendTlsVector(&chBuf,
                 2, (1 << 16) - 2,
@@ -2540,6 +2567,11 @@ int32 tls13WriteClientHello(ssl_t *ssl, sslBuf_t *out,
         return rc;
     }
     data = psDynBufDetachPsSize(&extBuf, &dataLen);
+    if (data == NULL)
+    {
+        psDynBufUninit(&chBuf);
+        return PS_MEM_FAIL;
+    }
     /* Extension extensions<6..2^16-1> */
     psDynBufAppendTlsVector(&chBuf,
             6, (1 << 16) - 1,
@@ -2549,6 +2581,10 @@ int32 tls13WriteClientHello(ssl_t *ssl, sslBuf_t *out,
 
     /* Now have the full ClientHello in chBuf. */
     data = psDynBufDetachPsSize(&chBuf, &dataLen);
+    if (data == NULL)
+    {
+        return PS_MEM_FAIL;
+    }
 
     messageSize = ssl->recordHeadLen + ssl->hshakeHeadLen + dataLen;
     if (messageSize > SSL_MAX_BUF_SIZE)
